@@ -11,13 +11,13 @@ CONSTANTS
   Payloads = {1}
   TypeIds = {301}
   Caps <- CapsOne
-  MaxCookie = 4
+  MaxCookie = 3
   InqBound = 1
-  Kinds = {"CreateObject", "DestroyObject", "CreateService", "CreateService2", "DestroyService", "QueryServiceVersion", "QueryServiceInfo", "Sync"}
-  Faults = {"ends", "dropped", "sdb", "sdi"}
+  Kinds = {"CreateObject", "DestroyObject", "CreateService", "AddBusListenerFilter", "RemoveBusListenerFilter", "ClearBusListenerFilters", "StartBusListener", "StopBusListener", "DestroyBusListener"}
+  Faults = {"ends"}
   WrongKinds = {}
   MsgBudget = 4
-  ScriptSel = "none"
+  ScriptSel = "lst"
   V0 = 20
   V1 = 20
 VIEW view
